@@ -62,6 +62,11 @@ type Clause struct {
 	Line  int
 }
 
+type LogClause struct {
+	Name string
+	E    Expr
+}
+
 type PredDecl struct {
 	Name       string
 	Params     []string
@@ -80,6 +85,8 @@ type FuncContract struct {
 	File    string
 	Line    int
 	Header  string
+	Overflow bool       // generate signed-overflow obligations for + - * in this function
+	Logs     []LogClause // ghost-log primitives: calling this function appends a value to a named ghost log
 	Unfold  []string // recursive definitions whose unfolding axioms are given to the solver (default: none, applications stay opaque)
 }
 
@@ -101,6 +108,7 @@ type PkgContracts struct {
 	Assumes  []string
 	Files    []string
 	Bits     map[string]int
+	FreshResult []string // functions (localKey prefix) whose slice/pointer result is exclusively owned (assumed)
 }
 
 // ---------------------------------------------------------------- lexer
@@ -425,7 +433,7 @@ func (p *parser) primary() Expr {
 
 var blockRe = regexp.MustCompile(`(?s)/\*@(.*?)@\*/`)
 var clauseKw = map[string]bool{"requires": true, "ensures": true, "modifies": true, "loop": true, "panics": true,
-	"assume": true, "exit": true, "func": true, "pred": true, "spec": true, "inline": true, "noinline": true, "pure": true, "ghost": true, "rec": true, "bits": true, "unfold": true}
+	"assume": true, "exit": true, "func": true, "pred": true, "spec": true, "inline": true, "noinline": true, "pure": true, "ghost": true, "rec": true, "bits": true, "unfold": true, "logs": true, "overflow": true, "freshresult": true}
 
 // ReadContracts parses every contracts_verif*.go file of a package directory.
 func ReadContracts(dir string) (*PkgContracts, error) {
@@ -541,6 +549,10 @@ func (pc *PkgContracts) parseBlock(body, file string, line0 int) error {
 			}
 			pd.Body = e
 			pc.Preds[pd.Name] = pd
+		case "freshresult":
+			cur = nil
+			pc.FreshResult = append(pc.FreshResult, strings.TrimSpace(it.text))
+			pc.Assumes = append(pc.Assumes, "freshresult "+strings.TrimSpace(it.text)+": the result is an object referenced from nowhere else")
 		case "inline":
 			cur = nil
 			pc.Inline[strings.TrimSpace(it.text)] = true
@@ -554,6 +566,21 @@ func (pc *PkgContracts) parseBlock(body, file string, line0 int) error {
 			cl := &Clause{Kind: it.kw, Text: it.text, Line: it.line}
 			text := it.text
 			switch it.kw {
+			case "overflow":
+				cur.Overflow = true
+				continue
+			case "logs":
+				// logs <logname>: <expr>
+				j := strings.Index(text, ":")
+				if j < 0 {
+					return errf("logs <name>: <expr>")
+				}
+				e, err := ParseExpr(text[j+1:])
+				if err != nil {
+					return errf("%v", err)
+				}
+				cur.Logs = append(cur.Logs, LogClause{Name: strings.TrimSpace(text[:j]), E: e})
+				continue
 			case "unfold":
 				cur.Unfold = []string{}
 				for _, f := range strings.FieldsFunc(text, func(r rune) bool { return r == ',' || r == ' ' }) {
